@@ -1131,8 +1131,9 @@ class _lin(object):
                 if c.size == (newlg,len(v)):
                     self._coeff[v][::newlg+1] = c[::newlg+1] + a
                 elif c.size == (1,len(v)):
-                    self._coeff[v] = c[newlg*[0],:]
-                    self._coeff[v][::newlg+1] = c[::newlg+1] + a 
+                    m = c[newlg*[0],:]
+                    m[::newlg+1] = m[::newlg+1] + a
+                    self._coeff[v] = m
                 elif _isscalar(c):
                     self._coeff[v] = c + a
                 else:
